@@ -18,7 +18,11 @@ ROOT = os.path.dirname(os.path.dirname(os.path.abspath(__file__)))
 REPO = os.environ.get("VERIF_REPO", "/repo")
 BUILD = os.path.join(ROOT, "build")
 COQ = os.path.join(ROOT, "coq")
-EVID = os.path.join(ROOT, "evidence") if os.environ.get("VERIF_REPO", "/repo") == "/repo" else os.path.join(ROOT, "build", "evidence-alt")
+import hashlib as _hl
+# checks pointed at a scratch copy (VERIF_REPO) use private build/evidence directories, one set per scratch path,
+# so that several of them can run at the same time
+ALTTAG = "alt" + _hl.sha1(REPO.encode()).hexdigest()[:8]
+EVID = os.path.join(ROOT, "evidence") if REPO == "/repo" else os.path.join(ROOT, "build", "evidence-" + ALTTAG)
 REPLAY = os.path.join(EVID, "replay")
 
 GOENV = dict(os.environ)
@@ -247,16 +251,16 @@ ALT = REPO != "/repo"   # checks pointed at another copy of the library (VERIF_R
 def overlay_json():
     """build the overlay for the current working tree of the library (see lib/mkoverlay.py)"""
     import mkoverlay
-    with Lock("overlay"):
-        return mkoverlay.make(REPO, os.path.join(BUILD, "overlay-alt" if ALT else "overlay"))
+    with Lock("overlay" + ("-" + ALTTAG if ALT else "")):
+        return mkoverlay.make(REPO, os.path.join(BUILD, "overlay-" + ALTTAG if ALT else "overlay"))
 
 
 def harness_dir():
     hd = os.path.join(ROOT, "harness")
     if not ALT:
         return hd
-    alt = os.path.join(BUILD, "harness-alt")
-    with Lock("harness-alt"):
+    alt = os.path.join(BUILD, "harness-" + ALTTAG)
+    with Lock("harness-" + ALTTAG):
         sh(["rsync", "-a", "--delete", hd + "/", alt + "/"], timeout=120)
         gm = os.path.join(alt, "go.mod")
         txt = open(gm).read().replace("=> /repo", "=> " + REPO)
@@ -267,8 +271,8 @@ def harness_dir():
 def build_harness(cmd, overlay=None, tags=None, race=False, timeout=900):
     """go build of one harness command against the library's working tree. Returns (ok, path, log)."""
     hd = harness_dir()
-    out_path = os.path.join(BUILD, "bin-alt" if ALT else "bin", cmd + ("-race" if race else ""))
-    with Lock("go." + cmd + ("-alt" if ALT else "")):
+    out_path = os.path.join(BUILD, "bin-" + ALTTAG if ALT else "bin", cmd + ("-race" if race else ""))
+    with Lock("go." + cmd + ("-" + ALTTAG if ALT else "")):
         os.makedirs(os.path.dirname(out_path), exist_ok=True)
         try:
             shutil.copy(os.path.join(REPO, "go.sum"), os.path.join(hd, "go.sum"))
@@ -408,7 +412,7 @@ class Check:
             log(l)
             self.infra_errors.append("harness %s does not build against the current tree:\n%s" % (cmd, l[-1500:]))
             return None
-        rpath = os.path.join(BUILD, "report%s.%s.%s.json" % ("-alt" if ALT else "", self.prop, cmd))
+        rpath = os.path.join(BUILD, "report%s.%s.%s.json" % ("-" + ALTTAG if ALT else "", self.prop, cmd))
         rc, out, rep = run_harness(path, margs + ["-seed", str(self.seed)] + args, rpath, timeout)
         if rep is None:
             self.infra_errors.append("harness %s produced no report (rc=%d):\n%s" % (cmd, rc, out[-2000:]))
